@@ -250,6 +250,14 @@ def run_conditional(case):
         dmax = float(np.max(pdf_T_ref(m, pts)))
         detail = dict(detail, peak_joint_density_on_conditioning_line=dmax)
         sig = {"check": "mc_conditional", "clause": clause, "dim": dim, "peak_joint_density_below_1e-3": bool(dmax < 1e-3)}
+        if "sample_max" in detail:
+            # second witness: does the sampled range end where the joint density still exceeds the sampler's own threshold
+            # (range cut inside the support = the repaired x_max defect) or below it (absolute-threshold tail loss)?
+            sm = detail["sample_max"]
+            pt = np.array([[sm, g]]) if dim == 0 else np.array([[g, sm]])
+            dsm = float(pdf_T_ref(m, pt)[0])
+            detail["joint_density_at_sample_max"] = dsm
+            sig["range_ends_above_sampler_threshold"] = bool(dsm > 1.5e-7)
         sig.update(extra)
         if not any(v["sig"] == sig for v in viol):
             viol.append({"sig": sig, "detail": detail, "case": case})
@@ -282,13 +290,13 @@ def run_conditional(case):
         eps = stats.dkw_eps(len(smp))
         if dist > eps:
             bad("conditional_sample_distribution", {"given": g, "quantile_of_given": q, "sup_distance": dist, "dkw_eps": eps,
-                                                    "sample_range": [float(smp.min()), float(smp.max())]})
+                                                    "sample_range": [float(smp.min()), float(smp.max())], "sample_max": float(smp.max())})
         else:
             # tails not truncated: the maximum must exceed the exact (1 - c/n)-quantile (and the minimum the c/n-quantile)
             qt = stats.tail_coverage_quantile(len(smp))
             pmax, pmin = float(exact(np.array([smp.max()]))[0]), float(exact(np.array([smp.min()]))[0])
             if pmax < qt:
-                bad("upper_tail_truncated", {"given": g, "F_at_sample_max": pmax, "required": qt})
+                bad("upper_tail_truncated", {"given": g, "F_at_sample_max": pmax, "required": qt, "sample_max": float(smp.max())})
             if pmin > 1 - qt:
                 bad("lower_tail_truncated", {"given": g, "F_at_sample_min": pmin, "required": 1 - qt})
     # conditional_cdf / conditional_icdf at a few levels
